@@ -197,7 +197,7 @@ def main():
         cases = mod.cases(rng, tier)
         # corpus first: minimised past failures (modules with their own CORPUS handling load them themselves)
         cdir = os.path.join(C.VERIF, 'corpus', prop)
-        if not hasattr(mod, 'CORPUS') and os.path.isdir(cdir):
+        if not hasattr(mod, 'CORPUS') and not hasattr(mod, 'corpus_cases') and os.path.isdir(cdir):
             pre = []
             for fn in sorted(os.listdir(cdir)):
                 if fn.endswith('.case'):
